@@ -401,8 +401,117 @@ def error_wakes(F, R):
     R.ob('C07.error-wakes', 'call_service::spawned-task|true=>notify_dispatcher', ok and sw is not None, 'the spawned response task must call notify_dispatcher() exactly when handle_result returned true')
 
 
+def waiter_cancel_ends_send(F, R):
+    """Teardown drops the parked senders' wake-up channels (clear_queues): a send that was waiting for the window must
+    then end with an error. After every await of such a waiter the result is tested and the cancelled edge reaches
+    neither a registration in the outstanding queue nor a wire write - otherwise the send re-registers after the
+    queues were cleared and waits for an acknowledgement that can never come."""
+    n = 0
+    for ver in ('v3', 'v5'):
+        for b in F.find(r'^(<)?%s::(sink|shared)::' % ver):
+            if not b.is_coroutine:
+                continue
+            for a in await_points(b):
+                t = b.blocks[a['poll']]['term']
+                p0 = op_place(t['args'][0]) if t['args'] else None
+                if p0 is None or 'pool::Receiver<()>' not in b.local_ty(p0['l']):
+                    continue
+                SENDS = r'::shared::MqttShared::(wait_response|wait_publish_response|wait_publish_response_no_block|encode_packet|encode_publish)$|IoRef>::encode$|::sink::PublishBuilder::\w+_inner$'
+                if not [1 for bi, ct in b.calls() if bi in b.reachable(a['ready']) and re.search(SENDS, callee_name(ct) or '')]:
+                    continue  # nothing is sent after this await (e.g. MqttSink::ready returns the outcome itself)
+                n += 1
+                tainted = {t['dest']['l']}
+                changed = True
+                kind = {}  # local -> 'is_err' | 'is_ok' | 'discr'
+                while changed:
+                    changed = False
+                    for bi, j, s_ in b.assigns():
+                        l = s_['lhs']['l']
+                        if l in tainted:
+                            continue
+                        rv = s_['rv']
+                        ops = [rv.get('op'), rv.get('a'), rv.get('b')] + list(rv.get('fields') or [])
+                        pls = [op_place(o) for o in ops if o] + ([rv['place']] if rv.get('place') else [])
+                        if any(pl is not None and pl['l'] in tainted for pl in pls):
+                            tainted.add(l)
+                            if rv['k'] == 'discr':
+                                kind[l] = 'discr'
+                            changed = True
+                    for bi, ct in b.calls():
+                        l = ct['dest']['l']
+                        if l in tainted:
+                            continue
+                        nm = callee_name(ct) or ''
+                        if any(op_place(x) is not None and op_place(x)['l'] in tainted for x in ct['args']) and re.search(r'::(is_err|is_ok|map_err|map|branch|from_residual|ok|err|is_some|is_none)$', nm):
+                            tainted.add(l)
+                            base = nm.split('::')[-1]
+                            if base in ('is_err', 'is_none'):
+                                kind[l] = 'is_err'
+                            elif base in ('is_ok', 'is_some'):
+                                kind[l] = 'is_ok'
+                            changed = True
+                after = b.reachable(a['ready'])
+                tests = []
+                for sb in sorted(after):
+                    tt = b.blocks[sb]['term']
+                    if tt['k'] != 'switch':
+                        continue
+                    pl = op_place(tt['discr'])
+                    if pl is None or pl['l'] not in tainted or pl['l'] == t['dest']['l']:
+                        continue
+                    k = kind.get(pl['l'])
+                    if k is None:
+                        ds = b.whole_defs(pl['l'])
+                        k = 'discr' if any(d[2] == 'assign' and d[3]['rv']['k'] == 'discr' for d in ds) else None
+                        if k is None:
+                            # bool copied from is_err()/is_ok()
+                            for d in ds:
+                                if d[2] == 'assign' and d[3]['rv']['k'] == 'use' and op_place(d[3]['rv']['op']) is not None:
+                                    k = kind.get(op_place(d[3]['rv']['op'])['l'])
+                    if k is None:
+                        continue
+                    tg = dict((v, x) for v, x in tt['targets'])
+                    if k == 'is_err':
+                        err_t, ok_t = tt['otherwise'], tg.get(0)
+                    elif k == 'is_ok':
+                        err_t, ok_t = tg.get(0), tt['otherwise']
+                    else:
+                        err_t, ok_t = tg.get(1, tt['otherwise']), tg.get(0)
+                    if err_t is not None:
+                        tests.append((sb, err_t, ok_t))
+                key = '%s|await(window waiter)' % re.sub(r'(::\{closure#\d+\})+$', '', b.path)
+                if not tests:
+                    R.ob('C07.drain', key + '|cancelled-wake-up-is-tested', False,
+                         'the result of awaiting the window waiter is ignored: when teardown drops the waiter the send continues, registers a new outstanding entry after the queues were cleared and never resolves', b.loc(a['poll']))
+                    continue
+                sb, err_t, ok_t = tests[0]
+                reg = b.reachable(err_t, avoid=[x for x in [ok_t] if x is not None])
+                bad = [bi for bi, ct in b.calls() if bi in reg and re.search(r'::shared::MqttShared::(wait_response|wait_publish_response|wait_publish_response_no_block|encode_packet|encode_publish)$|IoRef>::encode$|::sink::PublishBuilder::\w+_inner$', callee_name(ct) or '')]
+                R.ob('C07.drain', key + '|cancelled-wake-up-ends-the-send', not bad,
+                     'on the cancelled edge of the window waiter the send still registers / writes: after teardown it waits for an acknowledgement that can never arrive', b.loc(bad[0]) if bad else b.loc(sb))
+    R.floor('C07.drain', 'awaits of the window waiter in sink/shared', n, 4)
+
+
+def error_first(F, R):
+    """poll_service acts on a recorded handler / encoder error before anything that can leave the function without
+    having looked at it: every return of poll_service is dominated by `state.error.take()`. Checked behind the
+    service readiness poll instead, the error is ignored for as long as the service is not ready (back-pressure):
+    no Stop reaches the control service, nothing is released, and a later peer close reports PeerGone instead."""
+    ps = F.one(r'^io::DispatcherInner::<P, C, U, E>::poll_service$')
+    takes = {bi for bi, t in ps.calls_to(r'^std::cell::Cell::<T>::take$') if (call_recv_path(ps, t, 0) or ('',))[-1] == 'error'}
+    R.ob('C07.error-wakes', 'poll_service|reads-the-recorded-error', bool(takes), 'poll_service does not consult state.error', ps.loc(0))
+    if takes:
+        late = [r for r in ps.returns() if r in ps.reachable(0, avoid=takes)]
+        ready = [bi for bi, t in ps.calls() if re.search(r'::poll_ready$', callee_name(t) or '')]
+        before = [x for x in ready if x in ps.reachable(0, avoid=takes)]
+        R.ob('C07.error-wakes', 'poll_service|recorded-error-examined-before-readiness-and-every-exit', not late and not before,
+             'poll_service can return (or poll the service readiness) without having examined the recorded error: while the service is not ready a failed handler never stops the connection', ps.loc((late or before or [0])[0]))
+
+
 def run(F, R):
     error_wakes(F, R)
+    error_first(F, R)
+    waiter_cancel_ends_send(F, R)
     poll, ps, regions, head = stop_once(F, R)
     reason_map(F, R, poll, ps)
     cancel_after_stop(F, R, poll, regions)
